@@ -190,6 +190,46 @@ ExprChosen(k) == (k + Seed) % ExprThin = 0
 Chosen(k, n) == {m \in MutOps(n, Alphabet) :
                     m[1] = "rep" => (k + m[2] + Idx(m[3]) + Seed) % RepThin = 0}
 
+(* ---------------------------------------------------------------------- *)
+(* SEED expressions: valid expressions of constructs the alphabet cannot    *)
+(* reach within the length bound (FLWOR bindings, quantifiers, sequence     *)
+(* types with occurrence indicators, inline functions, arrow, lookup).      *)
+(* Each seed itself and EVERY one-token mutation of it (no thinning) is     *)
+(* replayed; tokens are joined by one space.                                *)
+Seeds == <<
+  <<"for", "$x", "in", "(", "1", ",", "2", ")", ",", "$y", "in", "(", "3", ",", "4", ")", "return", "$x", "+", "$y">>,
+  <<"some", "$x", "in", "(", "1", ",", "2", ")", "satisfies", "$x", "=", "1">>,
+  <<"let", "$x", ":=", "1", ",", "$y", ":=", "2", "return", "$x", "+", "$y">>,
+  <<"if", "(", "a", ")", "then", "1", "else", "2">>,
+  <<"[", "'a'", "]", "instance of", "array", "(", "xs:string", "*", ")">>,
+  <<"map", "{", "1", ":", "'a'", "}", "instance of", "map", "(", "xs:integer", ",", "xs:string", "+", ")">>,
+  <<"(", "1", ",", "2", ")", "instance of", "xs:integer", "+">>,
+  <<"a", "treat as", "element", "(", "a", ")", "?">>,
+  <<"'1'", "cast as", "xs:integer", "?">>,
+  <<"let", "$f", ":=", "function", "(", "$a", "as", "xs:integer", ")", "as", "xs:integer", "{", "$a", "+", "1", "}", "return", "$f", "(", "2", ")">>,
+  <<"(", "1", ",", "2", ")", "=>", "sum", "(", ")", "=>", "string", "(", ")">>,
+  <<"1", "=>", "unknown:f", "(", ")">>,
+  <<"map", "{", "'a'", ":", "1", "}", "?", "a">>,
+  <<"[", "1", ",", "2", "]", "?", "1">>,
+  <<"/", "a", "/", "b", "[", "@x", "=", "'1'", "]", "[", "1", "]", "/", "text", "(", ")">>,
+  <<"fn:abs", "#", "1", "(", "-", "1", ")">>,
+  <<"year-from-date", "(", "@x", ")">>
+>>
+
+(* STRESS vectors: the text  pre^n mid post^n tail  (deep nesting / long literals) *)
+Stress == {
+  [pre |-> "(",    n |-> 2000, mid |-> "1",  post |-> ")",  tail |-> ""],
+  [pre |-> "1",    n |-> 5000, mid |-> "",   post |-> "",   tail |-> ""],
+  [pre |-> "1",    n |-> 5000, mid |-> ".5", post |-> "",   tail |-> ""],
+  [pre |-> "-",    n |-> 2000, mid |-> "1",  post |-> "",   tail |-> ""],
+  [pre |-> "a/",   n |-> 2000, mid |-> "a",  post |-> "",   tail |-> ""],
+  [pre |-> "a[",   n |-> 1000, mid |-> "1",  post |-> "]",  tail |-> ""],
+  [pre |-> "1+",   n |-> 3000, mid |-> "1",  post |-> "",   tail |-> ""],
+  [pre |-> "(:",   n |-> 500,  mid |-> "",   post |-> ":)", tail |-> "1"],
+  [pre |-> "a",    n |-> 5000, mid |-> "",   post |-> "",   tail |-> ""],
+  [pre |-> "(",    n |-> 50,   mid |-> "1",  post |-> ")",  tail |-> ""]
+}
+
 (* printed once at start-up: the outcome oracle sets and the mutation plan *)
 ASSUME PrintOracle == /\ PrintT(<<"legal_parse", O!LegalShapes("parse")>>)
                       /\ PrintT(<<"legal_eval", O!LegalShapes("eval")>>)
@@ -198,6 +238,8 @@ ASSUME PrintOracle == /\ PrintT(<<"legal_parse", O!LegalShapes("parse")>>)
 (* The mutation plan is printed by a module generated at check time (cfg files cannot  *)
 (* hold tuples):  EXTENDS Tokens,  GenLens == <<n1, n2, ...>>  (token counts only) and  *)
 (*   ASSUME \A k \in 1..Len(GenLens) : ExprChosen(k) => PrintT(<<"mut", k, Chosen(k, GenLens[k])>>) *)
+(* The same module prints the seed plan <<"seedmut", k, Seeds[k], MutOps(Len(Seeds[k]), Alphabet)>>  *)
+(* and <<"stress", Stress>>.                                                                        *)
 
 (* self-check vectors for the harness' 1:1 application of descriptors *)
 ApplyVectors == Len(seq) = 2 => PrintT(<<"apply", seq, {<<m, Apply(seq, m)>> : m \in MutOps(2, {"a", "("})}>>)
